@@ -441,7 +441,24 @@ void M17Demodulator<FloatType>::do_stream_sync()
     int8_t sync_updated = lsf_sync.updated();
     if (sync_updated < 0)
     {
-        missing_sync_count = 0;
+        // A sync word confirms the lock only if the stream is also decoding.
+        // A data pattern that recurs in every frame and resembles the sync
+        // word must not hold the demodulator on frames it cannot decode.
+        if (viterbi_cost < STREAM_COST_LIMIT)
+        {
+            missing_sync_count = 0;
+        }
+        else if (missing_sync_count < MAX_MISSING_SYNC)
+        {
+            missing_sync_count += 1;
+        }
+        else
+        {
+            demodState = DemodState::UNLOCKED;
+            dcd.unlock();
+            eot_flag = false;
+            return;
+        }
         update_values(sync_index);
         sync_word_type = M17FrameDecoder::SyncWordType::STREAM;
         demodState = DemodState::SYNC_WAIT;
@@ -500,7 +517,22 @@ void M17Demodulator<FloatType>::do_packet_sync()
 
     if (sync_updated)
     {
-        missing_sync_count = 0;
+        // As in do_stream_sync: a sync word confirms the lock only if the
+        // frames are also decoding.
+        if (viterbi_cost < PACKET_COST_LIMIT)
+        {
+            missing_sync_count = 0;
+        }
+        else if (missing_sync_count < MAX_MISSING_SYNC)
+        {
+            missing_sync_count += 1;
+        }
+        else
+        {
+            demodState = DemodState::UNLOCKED;
+            dcd.unlock();
+            return;
+        }
         update_values(sync_index);
         sync_word_type = M17FrameDecoder::SyncWordType::PACKET;
         demodState = DemodState::SYNC_WAIT;
@@ -547,7 +579,22 @@ void M17Demodulator<FloatType>::do_bert_sync()
 
     if (sync_updated < 0)
     {
-        missing_sync_count = 0;
+        // As in do_stream_sync: a sync word confirms the lock only if the
+        // frames are also decoding.
+        if (viterbi_cost < STREAM_COST_LIMIT)
+        {
+            missing_sync_count = 0;
+        }
+        else if (missing_sync_count < MAX_MISSING_SYNC)
+        {
+            missing_sync_count += 1;
+        }
+        else
+        {
+            demodState = DemodState::UNLOCKED;
+            dcd.unlock();
+            return;
+        }
         update_values(sync_index);
         sync_word_type = M17FrameDecoder::SyncWordType::BERT;
         demodState = DemodState::SYNC_WAIT;
